@@ -129,6 +129,15 @@ def _spd(rng, d, scale):
     return (a @ a.T + 0.3 * np.eye(d)) * scale ** 2 / d
 
 
+def _index_form(rng, idx):
+    """the forms in which callers hand over periodic / reflective index sets: numpy int64 / int32 arrays (parallel_mcmc's
+    docstring), lists (Sampler / Config / Mutator), tuples"""
+    f = rng.choice(["int64", "int64", "int32", "list", "tuple"])
+    idx = [int(i) for i in idx]
+    return np.array(idx, dtype=np.int64) if f == "int64" else np.array(idx, dtype=np.int32) if f == "int32" \
+        else list(idx) if f == "list" else tuple(idx)
+
+
 def _gen_runner(rng, kind):
     d = rng.choice([1, 1, 2, 2, 3, 3, 4, 5])
     K = rng.randint(1, 4)
@@ -167,8 +176,8 @@ def _gen_runner(rng, kind):
         idx = list(range(d))
         p = [i for i in idx if rng.random() < 0.4]
         r = [i for i in idx if i not in p and rng.random() < 0.5]
-        per = np.array(p, dtype=int) if p else None
-        refl = np.array(r, dtype=int) if r else None
+        per = _index_form(rng, p) if p else None
+        refl = _index_form(rng, r) if r else None
     return dict(kind=kind, d=d, K=K, n=n, means=means, covs=covs, dofs=dofs, u=u, assign=assign, beta=beta,
                 prior_transform=prior_transform, log_likelihood=log_likelihood, per=per, refl=refl, hole=hole,
                 bad_index=bad_index)
@@ -615,7 +624,7 @@ def one_step_cell_2d(kernel, boundary, rho, sigma, seed, n=200000, bins=5):
                              "anti": [float(after[0, -1] / e), float(after[-1, 0] / e)]}}
 
 
-def multi_step_cell(kernel, target, beta, nu, m, seed, n=40000, d=1):
+def multi_step_cell(kernel, target, beta, nu, m, seed, n=40000, d=1, per=None, refl=None):
     """MULTI-step invariance oracle: exact i.i.d. draws from the tempered target (product over `d` coordinates of the 1-D
     target) -> ONE call of the real `parallel_mcmc` with n_steps = n_max = m, i.e. exactly max(1, m*d) passes of ONE stateful
     runner with everything enabled (adaptation as in the code) -> chi-square of the 20-bin histogram of coordinate 0 against the
@@ -644,16 +653,26 @@ def multi_step_cell(kernel, target, beta, nu, m, seed, n=40000, d=1):
         with common.patched(np.random, "gamma", rs.gamma), common.patched(np.random, "randn", rs.randn), \
                 common.patched(np.random, "rand", rs.rand):
             out = M.parallel_mcmc(u, u.copy(), logl, None, np.zeros(n, dtype=int), beta, ms, log_likelihood, lambda t: t, None,
-                                  m, m, kernel, None, None, False)
-    v = np.asarray(out[0])[:, 0]
+                                  m, m, kernel, per, refl, False)
+    w = np.asarray(out[0])
     expct = n * prob
-    before = np.histogram(u[:, 0], bins=edges)[0]
-    after = np.histogram(v, bins=edges)[0]
-    chi_b = float(np.sum((before[ok] - expct[ok]) ** 2 / expct[ok]))
-    chi_a = float(np.sum((after[ok] - expct[ok]) ** 2 / expct[ok]))
+    # exact part: no particle may sit outside [0,1] in a coordinate that is neither periodic nor reflective (all start inside)
+    wrapped = set(int(i) for i in (per if per is not None else [])) | set(int(i) for i in (refl if refl is not None else []))
+    hard = [i for i in range(d) if i not in wrapped]
+    outside = int(np.sum(np.any((w[:, hard] < 0) | (w[:, hard] > 1), axis=1))) if hard else 0
+    # statistical part: every coordinate keeps its marginal (the largest of the d chi-squares; p < 1e-9 each)
+    chi_b = chi_a = -1.0
+    worst = 0
+    for j in range(d):
+        before = np.histogram(u[:, j], bins=edges)[0]
+        after = np.histogram(w[:, j], bins=edges)[0]
+        chi_b = max(chi_b, float(np.sum((before[ok] - expct[ok]) ** 2 / expct[ok])))
+        cj = float(np.sum((after[ok] - expct[ok]) ** 2 / expct[ok])) + float(n - after.sum()) ** 2 / max(1.0, float(expct[ok].min()))
+        if cj > chi_a:
+            chi_a, worst, ratio = cj, j, [float(after[0] / expct[0]), float(after[-1] / expct[-1])]
     thr = chi2_threshold()
-    return {"chi2": chi_a, "chi2_before": chi_b, "threshold": thr, "fails": chi_a > thr and chi_b <= thr, "passes": int(out[6]),
-            "edge_ratio": [float(after[0] / expct[0]), float(after[-1] / expct[-1])], "acceptance": float(out[5])}
+    return {"chi2": chi_a, "chi2_before": chi_b, "threshold": thr, "fails": (chi_a > thr and chi_b <= thr) or outside > 0,
+            "passes": int(out[6]), "edge_ratio": ratio, "acceptance": float(out[5]), "outside": outside, "coordinate": worst}
 
 
 CELLS_MULTI = [
@@ -664,7 +683,20 @@ CELLS_MULTI = [
     ("tpcn", "uniform", 1.0, 30.0, 8, 1),
     ("rwm", "interior", 1.0, 3.0, 10, 1),
     ("rwm", "tilted", 1.0, 3.0, 6, 2),
+    # both index options together, as numpy arrays / lists / tuples (RWM with a diagonal mode covariance: proved invariant,
+    # rows 7-9; tpCN on folded coordinates is the known finding F17 and is not used here); hard coordinates remain
+    ("rwm", "tilted", 1.0, 3.0, 3, 4, ("int64", [1]), ("int64", [2])),
+    ("rwm", "tilted", 1.0, 3.0, 3, 4, ("list", [0]), ("tuple", [3])),
+    ("rwm", "tilted", 1.0, 3.0, 2, 5, ("int32", [0, 1]), ("int64", [2, 3])),
 ]
+
+
+def _mk_index(spec):
+    if spec is None:
+        return None
+    f, idx = spec
+    return np.array(idx, dtype=np.int64) if f == "int64" else np.array(idx, dtype=np.int32) if f == "int32" \
+        else list(idx) if f == "list" else tuple(idx)
 
 
 CELLS_2D = [
@@ -786,18 +818,32 @@ def _multi_step_search(tier, hints):
     n = 40000 if tier == "quick" else 100000
     kinds = {h.get("kind") for h in hints if h.get("kind")}
     cells = sorted(CELLS_MULTI, key=lambda c: 0 if c[0] in kinds else 1)
-    for kernel, target, beta, nu, m, d in cells:
-        tag = f"multi/{kernel}/{target}/{beta}/{nu}/{m}/{d}"
+    for cell in cells:
+        kernel, target, beta, nu, m, d = cell[:6]
+        pspec, rspec = (cell[6], cell[7]) if len(cell) > 6 else (None, None)
+        tag = f"multi/{kernel}/{target}/{beta}/{nu}/{m}/{d}/{pspec}/{rspec}"
         seed = (base * 1000003 + int(common.digest(tag), 16)) % (2 ** 31 - 1)
-        r = multi_step_cell(kernel, target, beta, nu, m, seed, n=n, d=d)
+        try:
+            r = multi_step_cell(kernel, target, beta, nu, m, seed, n=n, d=d, per=_mk_index(pspec), refl=_mk_index(rspec))
+        except (common.LeanError, OSError, MemoryError):
+            raise
+        except Exception as e:      # the real code raising on a valid configuration (every cell runs on the unchanged tree)
+            return [{"what": f"parallel_mcmc raised {type(e).__name__}: {e} on a valid configuration (sample={kernel}, d={d}, "
+                             f"periodic={pspec}, reflective={rspec}, n_steps = n_max = {m})",
+                     "oracle": "c03multi", "kernel": kernel, "target": target, "beta": beta, "nu": nu, "m": m, "d": d, "seed": seed,
+                     "n": 200, "per": pspec, "refl": rspec}]
         if r["chi2_before"] > r["threshold"]:
             raise common.LeanError(f"oracle self-check failed: exact sampler of target {target} has chi2 {r['chi2_before']}")
         if r["fails"]:
-            return [{"what": f"multi-step invariance violated: after {r['passes']} passes of ONE parallel_mcmc call (n_steps = n_max = {m}, "
-                             f"d = {d}, everything enabled) from exact target draws chi2={r['chi2']:.1f} > {r['threshold']:.1f} "
-                             f"(p<1e-9, {NBINS} bins, N={n}; before the call {r['chi2_before']:.1f})",
+            what = (f"{r['outside']} of {n} particles OUTSIDE the unit cube in a hard-boundary coordinate after " if r["outside"]
+                    else "multi-step invariance violated: after ")
+            return [{"what": what + f"{r['passes']} passes of ONE parallel_mcmc call (n_steps = n_max = {m}, d = {d}, periodic={pspec}, "
+                             f"reflective={rspec}, everything enabled) from exact in-cube target draws; coordinate {r['coordinate']}: "
+                             f"chi2={r['chi2']:.1f} > {r['threshold']:.1f} (p<1e-9, {NBINS} bins, N={n}; before the call "
+                             f"{r['chi2_before']:.1f})",
                      "oracle": "c03multi", "kernel": kernel, "target": target, "beta": beta, "nu": nu, "m": m, "d": d, "seed": seed, "n": n,
-                     "chi2": r["chi2"], "edge_ratio": r["edge_ratio"], "passes": r["passes"]}]
+                     "per": pspec, "refl": rspec, "chi2": r["chi2"], "edge_ratio": r["edge_ratio"], "passes": r["passes"],
+                     "outside": r["outside"]}]
     return []
 
 
@@ -806,8 +852,14 @@ def replay(obj):
     if f.get("oracle") == "c03run":
         return _run_oracle_replay(f)
     if f.get("oracle") == "c03multi":
-        r = multi_step_cell(f["kernel"], f["target"], f["beta"], f["nu"], f["m"], f["seed"], n=f.get("n", 40000), d=f.get("d", 1))
-        return {"fails": bool(r["fails"]), "detail": f"chi2={r['chi2']:.1f} threshold={r['threshold']:.1f} after {r['passes']} passes "
+        try:
+            r = multi_step_cell(f["kernel"], f["target"], f["beta"], f["nu"], f["m"], f["seed"], n=f.get("n", 40000), d=f.get("d", 1),
+                                per=_mk_index(f.get("per")), refl=_mk_index(f.get("refl")))
+        except (common.LeanError, OSError, MemoryError):
+            raise
+        except Exception as e:
+            return {"fails": True, "detail": f"parallel_mcmc raised {type(e).__name__}: {e}"}
+        return {"fails": bool(r["fails"]), "detail": f"outside={r['outside']} chi2={r['chi2']:.1f} threshold={r['threshold']:.1f} after {r['passes']} passes "
                                                      f"(before: {r['chi2_before']:.1f}) edge_ratio={r['edge_ratio']}"}
     if f.get("oracle") == "c03ms":
         return c03_modes.replay(f)
@@ -854,7 +906,10 @@ RULE = RULE + (
     " search additionally: multi-step invariance cells (CELLS_MULTI: exact target draws -> one real parallel_mcmc call with "
     "n_steps = n_max = m, 8-12 passes of one stateful runner, adaptation enabled, chi-square p < 1e-9) and, inside the run "
     "oracles, the randomness consumed per pass (tpCN: exactly one gamma draw per walker per pass with the shape / scale the "
-    "walker's current position prescribes; RWM none; one normal vector per walker, one uniform vector per pass).")
+    "walker's current position prescribes; RWM none; one normal vector per walker, one uniform vector per pass). periodic / "
+    "reflective index sets are handed over as numpy int64 / int32 arrays, lists or tuples (KS, KR, multi-step cells); 20% of the KR "
+    "runners have d in {4,5} with BOTH options given; exact oracles: prior_transform is never called outside the cube in a "
+    "hard-boundary coordinate, no particle outside the cube in such a coordinate after a parallel_mcmc call from in-cube draws.")
 ASSUMPTIONS = ASSUMPTIONS + [
     "run loop (Props/C03Run.lean): adaptation ACROSS steps makes the chain history-dependent; proved is what the one-step theorems "
     "need at every pass (assignments fixed, one sigma vector per pass handed over only between passes, cube and tpCN range "
@@ -913,9 +968,20 @@ class RunTape:
 
 
 def _gen_run_cfg(rng, kind):
+    both = rng.random() < 0.2      # family: d in {4, 5}, BOTH index options given (every form), at least one hard coordinate left
     while True:
         cfg = _gen_runner(rng, kind)
-        if cfg["d"] <= 3 and cfg["K"] <= 3:
+        if both and cfg["d"] >= 4 and cfg["K"] <= 2 and not cfg["bad_index"]:
+            d = cfg["d"]
+            idx = list(range(d))
+            rng.shuffle(idx)
+            n_p, n_r = rng.choice([(1, 1), (1, 1), (2, 1), (1, 2), (2, 2)])
+            if n_p + n_r >= d:
+                n_p, n_r = 1, 1
+            cfg["per"] = _index_form(rng, sorted(idx[:n_p]))
+            cfg["refl"] = _index_form(rng, sorted(idx[n_p:n_p + n_r]))
+            break
+        if not both and cfg["d"] <= 3 and cfg["K"] <= 3:
             break
     cfg["n_steps"] = rng.randint(1, 3)
     cfg["n_max"] = rng.randint(1, 4)
@@ -967,6 +1033,14 @@ def _real_run(cfg, rng, force_p=0.15):
     def ll(xx):
         obs["ll_rows"] += len(np.atleast_2d(xx))
         return cfg["log_likelihood"](xx)
+
+    obs["pt_outside"] = []
+
+    def pt(uu):
+        a = np.asarray(uu, dtype=float)
+        if strict and (np.any(a[..., strict] < 0) or np.any(a[..., strict] > 1)) and len(obs["pt_outside"]) < 3:
+            obs["pt_outside"].append(a.tolist())
+        return cfg["prior_transform"](uu)
 
     def hooks(runner):
         obs["runner"] = runner
@@ -1026,7 +1100,7 @@ def _real_run(cfg, rng, force_p=0.15):
                 common.patched(M, "TPCNRunner", _instrumented(classes[0], hooks)), \
                 common.patched(M, "RWMRunner", _instrumented(classes[1], hooks)):
             try:
-                out = M.parallel_mcmc(u, x, logl, None, cfg["assign"], cfg["beta"], ms, ll, cfg["prior_transform"], None,
+                out = M.parallel_mcmc(u, x, logl, None, cfg["assign"], cfg["beta"], ms, ll, pt, None,
                                       cfg["n_steps"], cfg["n_max"], cfg["sample"], cfg["per"], cfg["refl"], False)
             except IndexError:
                 err = "IndexError"
@@ -1065,6 +1139,10 @@ def _prows(tok):
     return [] if tok == "-" else [common.parse_list(r, hex2f) for r in tok.split(";")]
 
 
+def _idx_repr(ix):
+    return "None" if ix is None else f"{type(ix).__name__}{'[' + str(ix.dtype) + ']' if isinstance(ix, np.ndarray) else ''}{list(map(int, ix))}"
+
+
 def _run_invariants(cfg, obs, out):
     """EXACT oracles of the property's run-level obligations on the real code (no model involved); -> list of violations"""
     from tempest.mcmc import check_bounds
@@ -1083,6 +1161,10 @@ def _run_invariants(cfg, obs, out):
             bad.append(f"mode statistics `{nm}` changed during run")
     if r.beta != cfg["beta"] or r.periodic is not cfg["per"] or r.reflective is not cfg["refl"] or r.mode_stats is not ms:
         bad.append("beta / periodic / reflective / mode_stats attribute changed during run")
+    if obs.get("pt_outside"):
+        bad.append(f"prior_transform was called at a point outside the unit cube in a hard-boundary coordinate "
+                   f"(hard coordinates {obs['strict']}, periodic={_idx_repr(cfg['per'])}, reflective={_idx_repr(cfg['refl'])}): "
+                   f"{obs['pt_outside'][0]}")
     n, d = cfg["n"], cfg["d"]
     s0 = 2.38 / np.sqrt(d)
     cap = min(s0, 0.99)
@@ -1133,7 +1215,8 @@ def _run_invariants(cfg, obs, out):
                        f"{'missing' if tp['r'] is None else len(tp['r'])}: not one fresh draw per walker and pass")
         # the states stay in the cube
         if obs["strict"] and not (np.all(p["u_after"][:, obs["strict"]] >= 0) and np.all(p["u_after"][:, obs["strict"]] <= 1)):
-            bad.append(f"pass {t}: a state left the unit cube")
+            bad.append(f"pass {t}: a state left the unit cube in a hard-boundary coordinate (hard coordinates {obs['strict']}, "
+                       f"periodic={_idx_repr(cfg['per'])}, reflective={_idx_repr(cfg['refl'])})")
         # range (tpCN) and diminishing adaptation (both)
         if kind == "tpcn" and not (np.all(p["sig_after"] >= 0) and np.all(p["sig_after"] <= cap)):
             bad.append(f"pass {t}: tpCN step size outside [0, min(sigma_0, 0.99)]: {p['sig_after'].tolist()}")
@@ -1317,6 +1400,9 @@ def _run_suites(tier, drv):
                     c.count("first_cluster_empty(weighted_sigma_pairs_wrong_cluster)")
             if cfg["per"] is not None or cfg["refl"] is not None:
                 c.count("folded_coordinates")
+                c.count(f"index_options:periodic={_idx_repr(cfg['per']).split('[')[0]},reflective={_idx_repr(cfg['refl']).split('[')[0]}")
+                if cfg["per"] is not None and cfg["refl"] is not None:
+                    c.count(f"both_index_options_d={cfg['d']}")
             for v in _run_invariants(cfg, obs, res):
                 c.disagree(input=lines[-1][:500], impl="run-level invariant violated on the real code: " + v,
                            model="Props/C03Run.lean", kind=kind, what=["invariant"], oracle_index=idx)
